@@ -2,6 +2,7 @@ import Srtla.Model.Conn
 import Srtla.Lemmas.Log
 import Srtla.Lemmas.Conn
 import Srtla.Lemmas.SysDirKeys
+import Srtla.Lemmas.C02Reload
 /-!
 # C02 — per-link in-flight count equals packets sent and not yet retired
 
@@ -1399,5 +1400,283 @@ example : [KOp.send 9, .send 10, .send 11, .retire 5].foldl kstep [5, 7] = [7, 9
 end examples
 
 end shellC02
+
+/-! # Round 8 — C02 at shell level BY CONN ID, across reloads
+
+`C02_shell_refines` / `C02_shell_refines_exact` follow a link by its INDEX and carry `NoReload`.  A reload
+(`Ev.reload` = `apply_connection_changes`) removes links, shifts the indices of the retained ones and appends new
+ones, so across a reload the identity of a link is its CONN ID.  `Lemmas/C02Reload.lean`:
+
+* `SysDir.Origin s c pre k0` — where the link that carries conn id `c` came from: a link of the start state
+  (`pre = []`, `k0` = its key list there) or a link CREATED by the reload that ends `pre` (no link carried `c` before
+  that reload; `k0 = []`);
+* `SysDir.IdHist s post c hist` — the link with conn id `c` is PRESENT THROUGHOUT `post`; every event other than a
+  reload contributes a block of set operations allowed for the index the link has in the state reached
+  (`kopOk (evOps s e j)`, spelled out by `C02_shell_event_kinds`); a reload contributes NO set operation and retains
+  the link (its address is still desired — `reload_frame`: the whole record moves with it);
+* `SysDir.IdHistX` — the same with the exact blocks `clientBlock` / `flushBlock` of the data path.
+
+Hypotheses of the run theorems, as in `Props/SysReload.lean: Inv_run_reload`: `Sys.Inv` of the start state (conn ids
+pairwise distinct, queues below 32) and `FreshRun` (the conn ids a reload draws — `rand::rng().next_u64()` — are new
+among the links present then).  No `NoReload`.  A REMOVED link's history simply ends: `C02_shell_removed_ends` — no
+link carries its conn id after the reload; if a later reload re-draws that id, the link it names then has its
+`Origin` at THAT reload and starts from the empty set. -/
+
+section shellC02Reload
+open Srtla Srtla.Link Srtla.SysDir Srtla.Props.SysReload
+set_option linter.unusedSectionVars false
+variable {F : Type} [Scalar F]
+
+/-- **`in_flight_packets` = size of the set, along EVERY run, reloads included** — no hypothesis but the accounting
+invariant of the start state (not even distinct ids): for every link of the end state the counter is the size of the
+key set of its packet log, it is never negative and the set has no duplicates; the end state satisfies `ShellInv`
+again.  (A retained link keeps its record; a created link starts with the empty set and counter 0.) -/
+theorem C02_inflight_eq_card_run_reload (s : Sys.Sys F) (evs : List Sys.Ev) (hinv : ShellInv s) :
+    ShellInv (Sys.run s evs).1 ∧
+    ∀ l' ∈ (Sys.run s evs).1.links,
+      l'.core.inFlight = (l'.core.keys.length : Int) ∧ 0 ≤ l'.core.inFlight ∧ l'.core.keys.Nodup := by
+  have h := LinkInv_run_reload s evs (shellInv_all hinv)
+  refine ⟨shellInv_of_all h, fun l' hl' => ?_⟩
+  obtain ⟨hi, -, -, -, -⟩ := h l' hl'
+  exact ⟨hi.count, by rw [hi.count]; exact Int.natCast_nonneg _, hi.nodup⟩
+
+/-- **C02 at shell level by conn id, every run WITH reloads.**  From any state that satisfies the accounting
+invariant and `Sys.Inv` (both hold initially), along ANY finite list of shell events — reloads included, the ids
+they draw new (`FreshRun`) — for every link `l'` of the end state, with `c` its conn id:
+* the run splits as `pre ++ post` where the link's `Origin` is at the end of `pre`: it is a link of the start state
+  (`pre = []`, `k0` its key list there) or it was created by the reload that ends `pre`, before which no link carried
+  `c` (`k0 = []`);
+* the link is present throughout `post` and its key list is the fold of the per-link set machine over a
+  shell-visible history of `post` (`IdHist`: per event a block allowed for the index the link has THEN; nothing at a
+  reload), started from `k0`;
+* `in_flight_packets` is the size of that set (never negative), the set has no duplicates;
+* `l'` is THE link with conn id `c` in the end state (conn ids are still pairwise distinct). -/
+theorem C02_shell_refines_by_id (s : Sys.Sys F) (evs : List Sys.Ev) (hinv : ShellInv s) (hI : Sys.Inv s)
+    (hf : FreshRun s evs) :
+    ∀ l' ∈ (Sys.run s evs).1.links, ∃ pre post k0 hist, evs = pre ++ post ∧
+      Origin s l'.core.connId pre k0 ∧ IdHist (Sys.run s pre).1 post l'.core.connId hist ∧
+      l'.core.keys = hist.foldl kstep k0 ∧
+      l'.core.inFlight = (l'.core.keys.length : Int) ∧ 0 ≤ l'.core.inFlight ∧ l'.core.keys.Nodup ∧
+      ∀ m ∈ (Sys.run s evs).1.links, m.core.connId = l'.core.connId → m = l' := by
+  intro l' hl'
+  obtain ⟨pre, post, k0, hist, h1, h2, h3, h4⟩ := refines_by_id s evs (shellInv_all hinv) hf l' hl'
+  obtain ⟨h5, h6, h7⟩ := (C02_inflight_eq_card_run_reload s evs hinv).2 l' hl'
+  exact ⟨pre, post, k0, hist, h1, h2, h3, h4, h5, h6, h7,
+    fun m hm hc => eq_of_mem_of_connId (Inv_run_reload s hI evs hf).nodup hm hl' hc⟩
+
+/-- **C02 at shell level by conn id, every run WITH reloads, exact data path.**  As `C02_shell_refines_by_id`, with
+the history `IdHistX`: the block of a `client` event is `SysDir.clientBlock s now pkt j` and the block of a `flush`
+event is `SysDir.flushBlock s j`, `s` the state the run had reached and `j` the index the link with this conn id has
+THERE — no unconstrained `send` / `reset` arguments on the data path. -/
+theorem C02_shell_refines_exact_by_id (s : Sys.Sys F) (evs : List Sys.Ev) (hinv : ShellInv s) (hI : Sys.Inv s)
+    (hf : FreshRun s evs) :
+    ∀ l' ∈ (Sys.run s evs).1.links, ∃ pre post k0 hist, evs = pre ++ post ∧
+      Origin s l'.core.connId pre k0 ∧ IdHistX (Sys.run s pre).1 post l'.core.connId hist ∧
+      l'.core.keys = hist.foldl kstep k0 ∧
+      l'.core.inFlight = (l'.core.keys.length : Int) ∧ 0 ≤ l'.core.inFlight ∧ l'.core.keys.Nodup ∧
+      ∀ m ∈ (Sys.run s evs).1.links, m.core.connId = l'.core.connId → m = l' := by
+  have key : ∀ (evs : List Sys.Ev) (s : Sys.Sys F), ShellInv s → Sys.Inv s → FreshRun s evs →
+      ∀ l' ∈ (Sys.run s evs).1.links, ∃ pre post k0 hist, evs = pre ++ post ∧
+        Origin s l'.core.connId pre k0 ∧ IdHistX (Sys.run s pre).1 post l'.core.connId hist ∧
+        l'.core.keys = hist.foldl kstep k0 := by
+    intro evs
+    induction evs with
+    | nil =>
+      intro s _ _ _ l' hl'
+      exact ⟨[], [], _, [], rfl, .start hl' rfl, .nil hl' rfl, rfl⟩
+    | cons e es ih =>
+      intro s hinv hI hf l' hl'
+      obtain ⟨pre, post, k0, hist, hsplit, horig, hhist, hkeys⟩ :=
+        ih (Sys.step s e).1 (hinv.step e) (Inv_step_fresh s hI e hf.1) hf.2 l' hl'
+      cases horig with
+      | created h1 h2 =>
+        exact ⟨_, post, [], hist, by rw [hsplit]; rfl, Origin.cons_created h1 h2, hhist, hkeys⟩
+      | start hl1 hc1 =>
+        rename_i l1
+        have hes : es = post := hsplit
+        subst hes
+        -- the link at the same index one event earlier (events other than a reload)
+        have back : e.isReload = false → ∃ j l0, (Sys.step s e).1.links[j]? = some l1 ∧ s.links[j]? = some l0 ∧
+            l0.core.connId = l'.core.connId ∧
+            ∃ kops : List KOp, (∀ k ∈ kops, kopOk (evOps s e j) k) ∧ l1.core.keys = kops.foldl kstep l0.core.keys := by
+          intro hnr
+          obtain ⟨j, hj, hget⟩ := List.getElem_of_mem hl1
+          have h1 : (Sys.step s e).1.links[j]? = some l1 := by rw [List.getElem?_eq_getElem hj, hget]
+          obtain ⟨l0, hl0, hid, kops, hk1, hk2⟩ := step_keys_at s e hnr (shellInv_all hinv) h1
+          exact ⟨j, l0, h1, hl0, hid.trans hc1, kops, hk1, hk2⟩
+        have other : e.isReload = false → (∀ now pkt, e ≠ .client now pkt) → (∀ now, e ≠ .flush now) →
+            ∃ pre post k0 hist, e :: es = pre ++ post ∧ Origin s l'.core.connId pre k0 ∧
+              IdHistX (Sys.run s pre).1 post l'.core.connId hist ∧ l'.core.keys = hist.foldl kstep k0 := by
+          intro hnr hc hfl
+          obtain ⟨j, l0, -, hl0, hid, kops, hk1, hk2⟩ := back hnr
+          refine ⟨[], e :: es, l0.core.keys, kops ++ hist, rfl, .start (List.mem_of_getElem? hl0) hid,
+            .other hnr hc hfl hl0 hid hk1 hhist, ?_⟩
+          rw [List.foldl_append, ← hk2]
+          exact hkeys
+        cases e with
+        | reload now addrs outs =>
+          rcases Sys.mem_reload hl1 with ⟨hm, ha⟩ | ⟨id, a, -, hid, rfl⟩
+          · exact ⟨[], _ :: es, l1.core.keys, hist, rfl, .start hm hc1, .reload hm hc1 ha hhist, hkeys⟩
+          · have hc : l'.core.connId = id := hc1.symm
+            refine ⟨[.reload now addrs outs], es, [], hist, rfl, ?_, hhist, hkeys⟩
+            refine Origin.created (s := s) (pre := []) ?_ ?_
+            · rw [hc]; exact (hf.1 now addrs outs rfl).2 id hid
+            · rw [hc]; exact List.mem_map.2 ⟨_, hl1, rfl⟩
+        | client now pkt =>
+          obtain ⟨j, l0, h1, hl0, hid, -⟩ := back rfl
+          obtain ⟨l1', hl1', hk, -⟩ := client_keys_exact s now pkt hI.nodup j l0 hl0
+          have : l1' = l1 := by rw [hl1'] at h1; exact Option.some.inj h1
+          subst this
+          refine ⟨[], _ :: es, l0.core.keys, clientBlock s now pkt j ++ hist, rfl,
+            .start (List.mem_of_getElem? hl0) hid, .client hl0 hid hhist, ?_⟩
+          rw [List.foldl_append, ← hk]
+          exact hkeys
+        | flush now =>
+          obtain ⟨j, l0, h1, hl0, hid, -⟩ := back rfl
+          obtain ⟨l1', hl1', hk, -⟩ := C02_shell_flush_exact s now j l0 hl0
+          have : l1' = l1 := by rw [hl1'] at h1; exact Option.some.inj h1
+          subst this
+          refine ⟨[], _ :: es, l0.core.keys, flushBlock s j ++ hist, rfl,
+            .start (List.mem_of_getElem? hl0) hid, .flush hl0 hid hhist, ?_⟩
+          have hb : (flushBlock s j).foldl kstep l0.core.keys = l1'.core.keys := by
+            unfold flushBlock
+            rw [hl0]
+            dsimp only
+            rw [foldl_sends, hk]
+          rw [List.foldl_append, hb]
+          exact hkeys
+        | uplink now cid data => exact other rfl (fun _ _ h => by cases h) (fun _ h => by cases h)
+        | hk now => exact other rfl (fun _ _ h => by cases h) (fun _ h => by cases h)
+        | setCfg cfg => exact other rfl (fun _ _ h => by cases h) (fun _ h => by cases h)
+        | crit d => exact other rfl (fun _ _ h => by cases h) (fun _ h => by cases h)
+        | failNext c => exact other rfl (fun _ _ h => by cases h) (fun _ h => by cases h)
+        | failBind c => exact other rfl (fun _ _ h => by cases h) (fun _ h => by cases h)
+        | stamp idx w ld ccb cct => exact other rfl (fun _ _ h => by cases h) (fun _ h => by cases h)
+        | syncTimeout => exact other rfl (fun _ _ h => by cases h) (fun _ h => by cases h)
+  intro l' hl'
+  obtain ⟨pre, post, k0, hist, h1, h2, h3, h4⟩ := key evs s hinv hI hf l' hl'
+  obtain ⟨h5, h6, h7⟩ := (C02_inflight_eq_card_run_reload s evs hinv).2 l' hl'
+  exact ⟨pre, post, k0, hist, h1, h2, h3, h4, h5, h6, h7,
+    fun m hm hc => eq_of_mem_of_connId (Inv_run_reload s hI evs hf).nodup hm hl' hc⟩
+
+/-- **"The link with conn id `c`" is unambiguous at every moment of the run**: under the hypotheses of
+`C02_shell_refines_by_id` the conn ids are pairwise distinct in the state after EVERY prefix of the run, so the link
+`IdHist` / `IdHistX` pick at each event (any index `j` whose link carries `c`) is the only one. -/
+theorem C02_ids_distinct_along_run (s : Sys.Sys F) (evs : List Sys.Ev) (hI : Sys.Inv s) (hf : FreshRun s evs)
+    (k : Nat) : (Sys.ids (Sys.run s (evs.take k)).1.links).Nodup :=
+  ids_nodup_along s hI evs hf k
+
+/-- **A removed link's history ends.**  Conn ids pairwise distinct, the drawn ids new: a link whose address is no
+longer desired is not a link of the state after the reload and NO link there carries its conn id — its set is gone
+with it; every link of the post-state that was a link before (its address is desired) has its key list, its counter,
+its whole record unchanged; every other link of the post-state is freshly created with the empty set and counter 0. -/
+theorem C02_shell_removed_ends (s : Sys.Sys F) (now : Nat) (addrs : List Nat) (outs : List (Option Nat))
+    (hI : Sys.Inv s) (hfr : FreshOuts s.links outs) :
+    (∀ l ∈ s.links, addrs.contains l.addr = false →
+      ∀ l' ∈ (Sys.step s (.reload now addrs outs)).1.links, l'.core.connId ≠ l.core.connId) ∧
+    (∀ l' ∈ (Sys.step s (.reload now addrs outs)).1.links,
+      (l' ∈ s.links ∧ addrs.contains l'.addr = true) ∨
+      (l'.core.connId ∉ Sys.ids s.links ∧ l'.core.keys = [] ∧ l'.core.inFlight = 0)) := by
+  refine ⟨fun l hl hr => reload_removed s now addrs outs hI.nodup hfr.2 l hl hr, fun l' hl' => ?_⟩
+  rcases Sys.mem_reload hl' with h | ⟨id, a, -, hid, rfl⟩
+  · exact .inl h
+  · exact .inr ⟨hfr.2 id hid, rfl, rfl⟩
+
+/-! ### Non-vacuity (a run with two reloads from a non-pristine state) -/
+
+section examplesReload
+
+local instance exScalarR : Scalar Int := Select.fixScalar
+
+/-- From `Props/SysReload.lean: exS` (links `1@1` and `2@2` busy: live, packet 40 in flight and logged, datagram 41
+QUEUED; `3@3` fresh): a periodic flush (41 enters the sets of links 1 and 2); the reload `exReload` (address 2 no
+longer desired: link 2 is REMOVED with its set `[40, 41]`; `7@4` and `8@6` created); a cumulative SRT ACK of 40 on
+link 1 (retires 40, everything at or below it; 41 stays); a NAK of 41 arriving on link 1; a SECOND reload that re-adds
+address 2 under the new conn id 9 and removes `7@4`, `8@6`; a client datagram; a housekeeping tick. -/
+def exRunR : List Sys.Ev :=
+  [.flush 5000, exReload,
+   .uplink 5010 1 [0x80, 0x02, 0, 0, 0, 0, 0, 0, 0, 0, 0, 0, 0, 0, 0, 0, 0, 0, 0, 40],
+   .uplink 5011 1 [0x80, 0x03, 0, 0, 0, 0, 0, 41],
+   .reload 5020 [1, 2, 3] [some 9], .client 5021 exData, .hk 5022]
+
+/-- (conn id, address, key set, in-flight counter) per link. -/
+def exKeysR (s : Sys.Sys Int) : List (Nat × Nat × List Int × Int) :=
+  s.links.map fun l => (l.core.connId, l.addr, l.core.keys, l.core.inFlight)
+
+theorem exS_shellInv : ShellInv exS := shellInv_of_all exS_linkInv
+
+/-- The hypotheses hold of `exS` / `exRunR` (the run is NOT reload-free); the sets by conn id along the run: link 1
+keeps its identity through both reloads while its INDEX-mate changes (index 1 is link 2, then link 3); link 2's
+history ends at the first reload; link 9 is created by the second reload and starts empty although it has the
+ADDRESS of the removed link 2. -/
+example :
+    ShellInv exS ∧ Sys.Inv exS ∧ FreshRun exS exRunR ∧ ¬ Sys.NoReload exRunR ∧
+    exKeysR exS = [(1, 1, [40], 1), (2, 2, [40], 1), (3, 3, [], 0)] ∧
+    exKeysR (Sys.run exS (exRunR.take 1)).1 = [(1, 1, [40, 41], 2), (2, 2, [40, 41], 2), (3, 3, [], 0)] ∧
+    exKeysR (Sys.run exS (exRunR.take 2)).1 = [(1, 1, [40, 41], 2), (3, 3, [], 0), (7, 4, [], 0), (8, 6, [], 0)] ∧
+    exKeysR (Sys.run exS (exRunR.take 3)).1 = [(1, 1, [41], 1), (3, 3, [], 0), (7, 4, [], 0), (8, 6, [], 0)] ∧
+    exKeysR (Sys.run exS (exRunR.take 4)).1 = [(1, 1, [], 0), (3, 3, [], 0), (7, 4, [], 0), (8, 6, [], 0)] ∧
+    exKeysR (Sys.run exS exRunR).1 = [(1, 1, [], 0), (3, 3, [], 0), (9, 2, [], 0)] :=
+  ⟨exS_shellInv, exS_inv, by decide +kernel, by decide, by decide +kernel, by decide +kernel, by decide +kernel,
+   by decide +kernel, by decide +kernel, by decide +kernel⟩
+
+/-- The history of conn id 1 over `exRunR` (an `IdHistX`: origin = start state, `pre = []`): the flush block at index
+0 of the start state is the send of 41; the reloads contribute nothing; the SRT ACK block is one cumulative ACK, the
+NAK block one retirement; the fold over the initial set `[40]` is the final set `[]`.  Conn id 9: origin = the second
+reload (`pre = exRunR.take 5`, no link carried 9 before it), set `[]`. -/
+example :
+    flushBlock exS 0 = [.send 41] ∧
+    [KOp.send 41, .cumAck 40, .retire 41].foldl kstep [40] = [] ∧
+    [KOp.send 41, .cumAck 40].foldl kstep [40] = [41] ∧
+    9 ∉ Sys.ids (Sys.run exS (exRunR.take 4)).1.links ∧ 9 ∈ Sys.ids (Sys.run exS (exRunR.take 5)).1.links ∧
+    2 ∈ Sys.ids (Sys.run exS (exRunR.take 1)).1.links ∧ 2 ∉ Sys.ids (Sys.run exS (exRunR.take 2)).1.links :=
+  ⟨by decide +kernel, by decide, by decide, by decide +kernel, by decide +kernel, by decide +kernel, by decide +kernel⟩
+
+/-- An explicit `IdHistX` derivation ACROSS a reload, conn id 1 from `exS` over `[flush, exReload, flush]`: the first
+flush contributes `flushBlock` at index 0 of `exS` (the send of 41), the reload contributes nothing and retains the
+link (address 1 is desired), the second flush contributes `flushBlock` at the index the link has after the reload
+(the queue is empty by then: no operation). -/
+example :
+    IdHistX exS [.flush 5000, exReload, .flush 5001] 1
+      (flushBlock exS 0 ++ (flushBlock (Sys.run exS [.flush 5000, exReload]).1 0 ++ [])) ∧
+    flushBlock exS 0 ++ (flushBlock (Sys.run exS [.flush 5000, exReload]).1 0 ++ []) = [.send 41] := by
+  -- the link at index 0 of a concrete state, with its conn id and address (a closed, decidable statement)
+  have head : ∀ {ls : List (FLink Int)} {c a : Nat}, ls[0]?.map (fun l => (l.core.connId, l.addr)) = some (c, a) →
+      ∃ l, ls[0]? = some l ∧ l ∈ ls ∧ l.core.connId = c ∧ l.addr = a := by
+    intro ls c a h
+    cases hl : ls[0]? with
+    | none => rw [hl] at h; cases h
+    | some l =>
+      rw [hl] at h
+      simp only [Option.map_some, Option.some.injEq, Prod.mk.injEq] at h
+      exact ⟨l, rfl, List.mem_of_getElem? hl, h.1, h.2⟩
+  obtain ⟨l0, g0, -, c0, -⟩ := head (ls := exS.links) (c := 1) (a := 1) (by decide +kernel)
+  obtain ⟨l1, -, m1, c1, a1⟩ := head (ls := (Sys.step exS (.flush 5000)).1.links) (c := 1) (a := 1) (by decide +kernel)
+  obtain ⟨l2, g2, -, c2, -⟩ :=
+    head (ls := (Sys.step (Sys.step exS (.flush 5000)).1 exReload).1.links) (c := 1) (a := 1) (by decide +kernel)
+  obtain ⟨l3, -, m3, c3, -⟩ :=
+    head (ls := (Sys.step (Sys.step (Sys.step exS (.flush 5000)).1 exReload).1 (.flush 5001)).1.links) (c := 1) (a := 1)
+      (by decide +kernel)
+  refine ⟨?_, by decide +kernel⟩
+  refine .flush g0 c0 ?_
+  refine IdHistX.reload (now := 9) (addrs := [3, 1, 4, 4, 5, 6]) (outs := [some 7, none, some 8]) m1 c1
+    (by rw [a1]; decide) ?_
+  refine .flush g2 c2 ?_
+  exact .nil m3 c3
+
+/-- An explicit `Origin.created`: conn id 7 names no link after `[flush]` and names one after `[flush, exReload]`. -/
+example : Origin exS 7 ([.flush 5000] ++ [.reload 9 [3, 1, 4, 4, 5, 6] [some 7, none, some 8]]) [] :=
+  .created (by decide +kernel) (by decide +kernel)
+
+/-- Instances of the theorems on `exS` / `exRunR`. -/
+example := C02_shell_refines_by_id exS exRunR exS_shellInv exS_inv (by decide +kernel)
+example := C02_shell_refines_exact_by_id exS exRunR exS_shellInv exS_inv (by decide +kernel)
+example := C02_inflight_eq_card_run_reload exS exRunR exS_shellInv
+example (k : Nat) := C02_ids_distinct_along_run exS exRunR exS_inv (by decide +kernel) k
+example := C02_shell_removed_ends exS 9 [3, 1, 4, 4, 5, 6] [some 7, none, some 8] exS_inv (by decide)
+
+end examplesReload
+
+end shellC02Reload
 
 end Srtla.Props.C02
